@@ -1,14 +1,744 @@
+/-
+  C01 — Header validation binds signatures, validator set and DAH.   PROPERTY THEOREMS ONLY.
+
+  Model: `validate` in Lumina/Model/HeaderVerify.lean (transcription of
+  `ExtendedHeader::validate` and the `validate_basic`s it calls), run against the real code by
+  the correspondence check.  Spec: Lumina/Spec/C01.lean.
+
+  Idealised primitives are EXPLICIT HYPOTHESES, never axioms:
+    `Function.Injective P.hHeader / P.hValset / P.hDah`  — collision-freeness of the three hashes
+    `SigBindsMsg P`  — a signature valid for one signed content is not valid for another (same key)
+    `SigUnique P`    — at most one valid signature per (key, content)
+  All theorems hold for every header, every validator-set size, every signature type `S`.
+
+  THE PROPERTY AS WORDED IS FALSE of the current code in two places (both intended CometBFT
+  light-client semantics, recorded as open findings):
+    * signature / timestamp of a commit entry the 2/3 tally does not consume
+      (`FullStatementSig`, `mutation_sig_counterexample`; proved part: `…_partial`),
+    * validator address of ANY commit entry (`FullStatementAddr`, `mutation_addr_counterexample`,
+      `validate_ignores_entry_address`).
+-/
 import Lumina.Props.C03
 import Lumina.Model.HeaderVerifyBridge
 import Lumina.Model.C01Consts
 
 namespace Lumina.Props.C01
-open Lumina.Model.Commit Lumina.Model.HeaderVerify Lumina.Gen.C01
+open Lumina.Model.Commit Lumina.Model.HeaderVerify Lumina.Gen.C01 Lumina.Proofs.Commit
+open Lumina.Spec.C01
 
+/-- the constants of the source are the numbers the property (and the spec) state -/
 theorem consts_eq :
     BLOCK_PROTOCOL = 11 ∧ MAX_CHAIN_ID_LEN = 50 ∧ GENESIS_HEIGHT = 1 ∧ MIN_EXTENDED_SQUARE_WIDTH = 2 ∧
     LIGHT_NUM = 2 ∧ LIGHT_DEN = 3 ∧ EXT_FACTOR = 2 ∧
     squareUpperOfSource = [(1, 128), (2, 128), (3, 128), (4, 128), (5, 128), (6, 512), (7, 512)] := by
   decide
+
+def SigBindsMsg {S : Type} (P : Prims S) : Prop :=
+  ∀ pk m m' s, P.sigValid pk m s = true → P.sigValid pk m' s = true → m = m'
+
+def SigUnique {S : Type} (P : Prims S) : Prop :=
+  ∀ pk m s s', P.sigValid pk m s = true → P.sigValid pk m s' = true → s = s'
+
+theorem commitOut_ok (o : Outcome) : commitOut o = .ok ↔ o = .ok := by
+  cases o <;> simp [commitOut]
+
+/-- the light-verification call inside `validate` -/
+def lightOf {S : Type} (P : Prims S) (c : Consts) (eh : ExtHeader S) : Outcome :=
+  verifyCommitLight (sigOracle P eh) c.lightNum c.lightDen eh.valset.toValSet
+    eh.header.height eh.commit.height (eh.commit.sigs.map EntryF.toCSig)
+
+/-- **`validate` accepts exactly when** every one of its checks holds (so dropping any comparison
+    changes the model and is caught by the correspondence) -/
+theorem validate_ok_iff {S : Type} (P : Prims S) (c : Consts) (eh : ExtHeader S) :
+    validate P c eh = .ok ↔
+      (headerValidateBasic c eh.header = none ∧ commitValidateBasic c eh.commit = none ∧
+       valSetValidateBasicE eh.valset = none ∧
+       P.hValset eh.valset.hashed = eh.header.validatorsHash ∧
+       P.hDah (eh.dah.rows ++ eh.dah.cols) = eh.header.dataHash.getD none ∧
+       eh.commit.height = eh.header.height ∧
+       eh.commit.blockId.hash = P.hHeader eh.header.canon ∧
+       lightOf P c eh = .ok ∧
+       ∃ maxW, c.maxExtWidth? eh.header.versionApp = some maxW ∧
+         dahValidateBasic c.minExtWidth maxW eh.dah = none) := by
+  unfold validate lightOf
+  cases h1 : headerValidateBasic c eh.header with
+  | some e => simp
+  | none =>
+  cases h2 : commitValidateBasic c eh.commit with
+  | some e => simp
+  | none =>
+  cases h3 : valSetValidateBasicE eh.valset with
+  | some e => simp
+  | none =>
+  by_cases h4 : P.hValset eh.valset.hashed = eh.header.validatorsHash
+  case neg => simp [h4]
+  by_cases h5 : P.hDah (eh.dah.rows ++ eh.dah.cols) = eh.header.dataHash.getD none
+  case neg => simp [h4, h5]
+  by_cases h6 : eh.commit.height = eh.header.height
+  case neg => simp [h4, h5, h6]
+  by_cases h7 : eh.commit.blockId.hash = P.hHeader eh.header.canon
+  case neg => simp [h4, h5, h6, h7]
+  simp only [h4, h5, h6, h7, ne_eq, not_true_eq_false, if_false, true_and]
+  cases h8 : verifyCommitLight (sigOracle P eh) c.lightNum c.lightDen eh.valset.toValSet
+      eh.header.height eh.header.height (eh.commit.sigs.map EntryF.toCSig) with
+  | err e => simp [commitOut]
+  | panic => simp [commitOut]
+  | ok =>
+    simp only [commitOut, true_and]
+    cases h9 : c.maxExtWidth? eh.header.versionApp with
+    | none => simp
+    | some maxW =>
+      cases h10 : dahValidateBasic c.minExtWidth maxW eh.dah with
+      | some e => simp [h10]
+      | none => simp [h10]
+
+/-! ### mutation families decided by hashes and plain comparisons -/
+
+/-- **any field covered by the block hash** (the 14 header fields, as `Header::hash` sees them):
+    two accepted headers with the same commit block hash have the same hashed header content -/
+theorem mutation_rejects_header_field {S : Type} (P : Prims S) (c : Consts) (eh eh' : ExtHeader S)
+    (hinj : Function.Injective P.hHeader)
+    (hacc : validate P c eh = .ok)
+    (hsame : eh'.commit.blockId.hash = eh.commit.blockId.hash)
+    (hdiff : eh'.header.canon ≠ eh.header.canon) :
+    validate P c eh' ≠ .ok := by
+  intro hacc'
+  have h := ((validate_ok_iff P c eh).mp hacc).2.2.2.2.2.2.1
+  have h' := ((validate_ok_iff P c eh').mp hacc').2.2.2.2.2.2.1
+  exact hdiff (hinj (by rw [← h', ← h, hsame]))
+
+/-- **any DAH row or column root** (and any other change of the DAH), data hash unchanged -/
+theorem mutation_rejects_dah {S : Type} (P : Prims S) (c : Consts) (eh eh' : ExtHeader S)
+    (hinj : Function.Injective P.hDah)
+    (hacc : validate P c eh = .ok)
+    (hsame : eh'.header.dataHash.getD none = eh.header.dataHash.getD none)
+    (hdiff : eh'.dah ≠ eh.dah) :
+    validate P c eh' ≠ .ok := by
+  intro hacc'
+  obtain ⟨_, _, _, _, h5, _, _, _, w, _, hw⟩ := (validate_ok_iff P c eh).mp hacc
+  obtain ⟨_, _, _, _, h5', _, _, _, w', _, hw'⟩ := (validate_ok_iff P c eh').mp hacc'
+  have hcat : eh'.dah.rows ++ eh'.dah.cols = eh.dah.rows ++ eh.dah.cols :=
+    hinj (by rw [h5', h5, hsame])
+  have hl : eh.dah.cols.length = eh.dah.rows.length := by
+    unfold dahValidateBasic at hw
+    split at hw; · simp at hw
+    rename_i h; simpa using h
+  have hl' : eh'.dah.cols.length = eh'.dah.rows.length := by
+    unfold dahValidateBasic at hw'
+    split at hw'; · simp at hw'
+    rename_i h; simpa using h
+  have hlen : (eh'.dah.rows ++ eh'.dah.cols).length = (eh.dah.rows ++ eh.dah.cols).length := by rw [hcat]
+  simp only [List.length_append] at hlen
+  have hr : eh'.dah.rows.length = eh.dah.rows.length := by omega
+  obtain ⟨hrows, hcols⟩ := List.append_inj hcat hr
+  apply hdiff
+  cases hd : eh.dah; cases hd' : eh'.dah
+  simp_all
+
+/-- **the data hash**: with the DAH unchanged, a different data hash is rejected -/
+theorem mutation_rejects_data_hash {S : Type} (P : Prims S) (c : Consts) (eh eh' : ExtHeader S)
+    (hacc : validate P c eh = .ok)
+    (hsame : eh'.dah = eh.dah)
+    (hdiff : eh'.header.dataHash.getD none ≠ eh.header.dataHash.getD none) :
+    validate P c eh' ≠ .ok := by
+  intro hacc'
+  have h := ((validate_ok_iff P c eh).mp hacc).2.2.2.2.1
+  have h' := ((validate_ok_iff P c eh').mp hacc').2.2.2.2.1
+  rw [hsame, h] at h'
+  exact hdiff h'.symm
+
+/-- **any validator key or power**, validators hash unchanged -/
+theorem mutation_rejects_validator {S : Type} (P : Prims S) (c : Consts) (eh eh' : ExtHeader S)
+    (hinj : Function.Injective P.hValset)
+    (hacc : validate P c eh = .ok)
+    (hsame : eh'.header.validatorsHash = eh.header.validatorsHash)
+    (hdiff : eh'.valset.hashed ≠ eh.valset.hashed) :
+    validate P c eh' ≠ .ok := by
+  intro hacc'
+  have h := ((validate_ok_iff P c eh).mp hacc).2.2.2.1
+  have h' := ((validate_ok_iff P c eh').mp hacc').2.2.2.1
+  exact hdiff (hinj (by rw [h', h, hsame]))
+
+/-- **the commit's block id hash**, header unchanged (no hypothesis needed) -/
+theorem mutation_rejects_commit_block_hash {S : Type} (P : Prims S) (c : Consts) (eh eh' : ExtHeader S)
+    (hacc : validate P c eh = .ok)
+    (hsame : eh'.header = eh.header)
+    (hdiff : eh'.commit.blockId.hash ≠ eh.commit.blockId.hash) :
+    validate P c eh' ≠ .ok := by
+  intro hacc'
+  have h := ((validate_ok_iff P c eh).mp hacc).2.2.2.2.2.2.1
+  have h' := ((validate_ok_iff P c eh').mp hacc').2.2.2.2.2.2.1
+  rw [hsame, ← h] at h'
+  exact hdiff h'
+
+/-- **the commit's height**, header unchanged (no hypothesis needed) -/
+theorem mutation_rejects_commit_height {S : Type} (P : Prims S) (c : Consts) (eh eh' : ExtHeader S)
+    (hacc : validate P c eh = .ok)
+    (hsame : eh'.header = eh.header)
+    (hdiff : eh'.commit.height ≠ eh.commit.height) :
+    validate P c eh' ≠ .ok := by
+  intro hacc'
+  have h := ((validate_ok_iff P c eh).mp hacc).2.2.2.2.2.1
+  have h' := ((validate_ok_iff P c eh').mp hacc').2.2.2.2.2.1
+  rw [hsame, ← h] at h'
+  exact hdiff h'
+
+/-! ### commit entries: what the 2/3 tally consumes is bound -/
+
+/-- model-level "entry k is consumed by the tally": the commit power before it has not exceeded
+    the threshold -/
+def preOK {S : Type} (c : Consts) (eh : ExtHeader S) (k : Nat) : Prop :=
+  commitPow (eh.valset.toValSet.vals.take k) ((eh.commit.sigs.map EntryF.toCSig).take k) ≤
+    c.lightNum * eh.valset.total / c.lightDen
+
+/-- in an accepted header, every block-commit entry the tally consumes carries a signature that
+    verifies under the index-aligned validator's key for that entry's vote -/
+theorem tallied_entry_valid {S : Type} (P : Prims S) (c : Consts) (eh : ExtHeader S) (k : Nat)
+    (e : EntryF S) (hacc : validate P c eh = .ok) (he : eh.commit.sigs[k]? = some e)
+    (hflag : e.flag = .commit) (hpre : preOK c eh k) :
+    ∃ v s, eh.valset.vals[k]? = some v ∧ e.sig = some s ∧
+      P.sigValid v.pk (voteMsg eh e) s = true := by
+  have hl := ((validate_ok_iff P c eh).mp hacc).2.2.2.2.2.2.2.1
+  unfold lightOf verifyCommitLight at hl
+  split at hl; · simp at hl
+  rename_i hlen
+  split at hl; · simp at hl
+  cases hv : votingPowerNeeded c.lightNum c.lightDen eh.valset.toValSet.total with
+  | error x => rw [hv] at hl; simp at hl
+  | ok needed =>
+    rw [hv] at hl
+    simp only at hl
+    obtain ⟨_, hn⟩ := votingPowerNeeded_ok hv
+    rcases List.getElem?_eq_some_iff.mp he with ⟨hk, hget⟩
+    have hlen' : eh.valset.toValSet.vals.length = (eh.commit.sigs.map EntryF.toCSig).length := by
+      simpa using hlen
+    have hk1 : k < (eh.commit.sigs.map EntryF.toCSig).length := by simpa using hk
+    have hk2 : k < eh.valset.toValSet.vals.length := by omega
+    have hf : (eh.commit.sigs.map EntryF.toCSig)[k].flag = .commit := by
+      simp [hget, EntryF.toCSig, hflag]
+    have := lightLoop_ok_consumed (sigOracle P eh) needed eh.valset.toValSet.vals 0 0 _ k hk1 hl hk2 hf
+      (by rw [hn]; simpa [preOK, SetK.toValSet] using hpre)
+    obtain ⟨_, hok⟩ := this
+    simp only [Nat.zero_add] at hok
+    have hk3 : k < eh.valset.vals.length := by simpa [SetK.toValSet] using hk2
+    unfold sigOracle at hok
+    rw [he, List.getElem?_eq_getElem hk3] at hok
+    simp only at hok
+    cases hs : e.sig with
+    | none => rw [hs] at hok; simp at hok
+    | some s =>
+      rw [hs] at hok
+      exact ⟨eh.valset.vals[k], s, List.getElem?_eq_getElem hk3, rfl, hok⟩
+
+/-- replace commit entry `k` -/
+def setEntry {S : Type} (eh : ExtHeader S) (k : Nat) (e' : EntryF S) : ExtHeader S :=
+  { eh with commit := { eh.commit with sigs := eh.commit.sigs.set k e' } }
+
+theorem preOK_setEntry {S : Type} (c : Consts) (eh : ExtHeader S) (k : Nat) (e' : EntryF S) :
+    preOK c (setEntry eh k e') k ↔ preOK c eh k := by
+  unfold preOK setEntry
+  simp [List.take_set_of_le]
+
+theorem setEntry_get {S : Type} (eh : ExtHeader S) (k : Nat) (e e' : EntryF S)
+    (he : eh.commit.sigs[k]? = some e) : (setEntry eh k e').commit.sigs[k]? = some e' := by
+  rcases List.getElem?_eq_some_iff.mp he with ⟨hk, _⟩
+  simp [setEntry, hk]
+
+/-- the two accepted headers of a single-entry mutation both carry a valid signature at a
+    consumed position `k`, under the same key -/
+theorem both_valid {S : Type} (P : Prims S) (c : Consts) (eh : ExtHeader S) (k : Nat) (e e' : EntryF S)
+    (hacc : validate P c eh = .ok) (hacc' : validate P c (setEntry eh k e') = .ok)
+    (he : eh.commit.sigs[k]? = some e) (hflag : e.flag = .commit) (hflag' : e'.flag = .commit)
+    (hpre : preOK c eh k) :
+    ∃ (v : ValK) (s s' : S), e.sig = some s ∧ e'.sig = some s' ∧
+      P.sigValid v.pk (voteMsg eh e) s = true ∧ P.sigValid v.pk (voteMsg eh e') s' = true := by
+  obtain ⟨v, s, hv, hs, hval⟩ := tallied_entry_valid P c eh k e hacc he hflag hpre
+  obtain ⟨v', s', hv', hs', hval'⟩ := tallied_entry_valid P c (setEntry eh k e') k e' hacc'
+    (setEntry_get eh k e e' he) hflag' ((preOK_setEntry c eh k e').mpr hpre)
+  have hvv : v' = v := by
+    have : (setEntry eh k e').valset = eh.valset := rfl
+    rw [this, hv] at hv'
+    exact (Option.some.inj hv').symm
+  subst hvv
+  exact ⟨v', s, s', hs, hs', hval, hval'⟩
+
+/-- **any commit signature — of an entry the tally consumes** (`_partial`: see `FullStatementSig`) -/
+theorem mutation_rejects_signature_partial {S : Type} (P : Prims S) (c : Consts) (eh : ExtHeader S)
+    (k : Nat) (e e' : EntryF S) (hu : SigUnique P)
+    (hacc : validate P c eh = .ok) (he : eh.commit.sigs[k]? = some e) (hflag : e.flag = .commit)
+    (hpre : preOK c eh k)
+    (hsame : e'.flag = e.flag ∧ e'.ts = e.ts) (hdiff : e'.sig ≠ e.sig) :
+    validate P c (setEntry eh k e') ≠ .ok := by
+  intro hacc'
+  obtain ⟨v, s, s', hs, hs', hval, hval'⟩ :=
+    both_valid P c eh k e e' hacc hacc' he hflag (by rw [hsame.1, hflag]) hpre
+  have hm : voteMsg eh e' = voteMsg eh e := by simp [voteMsg, hsame.2]
+  rw [hm] at hval'
+  have := hu _ _ _ _ hval hval'
+  apply hdiff
+  rw [hs, hs', this]
+
+/-- **any commit timestamp — of an entry the tally consumes** -/
+theorem mutation_rejects_timestamp_partial {S : Type} (P : Prims S) (c : Consts) (eh : ExtHeader S)
+    (k : Nat) (e e' : EntryF S) (hb : SigBindsMsg P)
+    (hacc : validate P c eh = .ok) (he : eh.commit.sigs[k]? = some e) (hflag : e.flag = .commit)
+    (hpre : preOK c eh k)
+    (hsame : e'.flag = e.flag ∧ e'.sig = e.sig) (hdiff : e'.ts ≠ e.ts) :
+    validate P c (setEntry eh k e') ≠ .ok := by
+  intro hacc'
+  obtain ⟨v, s, s', hs, hs', hval, hval'⟩ :=
+    both_valid P c eh k e e' hacc hacc' he hflag (by rw [hsame.1, hflag]) hpre
+  have hss : s' = s := by
+    have : some s' = some s := by rw [← hs', ← hs, hsame.2]
+    exact Option.some.inj this
+  rw [hss] at hval'
+  have := hb _ _ _ _ hval hval'
+  apply hdiff
+  have := congrArg VoteMsg.ts this
+  simpa [voteMsg] using this.symm
+
+/-- an accepted header's light loop ran to acceptance -/
+theorem accepted_loop {S : Type} (P : Prims S) (c : Consts) (eh : ExtHeader S)
+    (hacc : validate P c eh = .ok) :
+    eh.valset.toValSet.vals.length = (eh.commit.sigs.map EntryF.toCSig).length ∧
+    lightLoop (sigOracle P eh) (c.lightNum * eh.valset.total / c.lightDen) 0 0
+      eh.valset.toValSet.vals (eh.commit.sigs.map EntryF.toCSig) = .ok := by
+  have hl := ((validate_ok_iff P c eh).mp hacc).2.2.2.2.2.2.2.1
+  unfold lightOf verifyCommitLight at hl
+  split at hl; · simp at hl
+  rename_i hlen
+  split at hl; · simp at hl
+  cases hv : votingPowerNeeded c.lightNum c.lightDen eh.valset.toValSet.total with
+  | error x => rw [hv] at hl; simp at hl
+  | ok needed =>
+    rw [hv] at hl
+    simp only at hl
+    obtain ⟨_, hn⟩ := votingPowerNeeded_ok hv
+    rw [hn] at hl
+    exact ⟨by simpa using hlen, hl⟩
+
+/-- **the commit's round, the rest of its block id (part-set header), and the chain id, height
+    and block hash as signed**: two accepted headers with the same validator set and the same
+    commit entries agree on everything the votes sign -/
+theorem mutation_rejects_signed_commit_field {S : Type} (P : Prims S) (c : Consts) (eh eh' : ExtHeader S)
+    (hb : SigBindsMsg P)
+    (hacc : validate P c eh = .ok)
+    (hvals : eh'.valset = eh.valset) (hsigs : eh'.commit.sigs = eh.commit.sigs)
+    (hdiff : eh'.commit.round ≠ eh.commit.round ∨ eh'.commit.blockId ≠ eh.commit.blockId ∨
+             eh'.header.chainId ≠ eh.header.chainId ∨ eh'.commit.height ≠ eh.commit.height) :
+    validate P c eh' ≠ .ok := by
+  intro hacc'
+  obtain ⟨hlen, hloop⟩ := accepted_loop P c eh hacc
+  obtain ⟨k, hk, hkv, hflag, hpre⟩ := lightLoop_ok_exists _ _ _ 0 0 _ hloop
+  have hk' : k < eh.commit.sigs.length := by simpa using hk
+  have he : eh.commit.sigs[k]? = some eh.commit.sigs[k] := List.getElem?_eq_getElem hk'
+  have hf : (eh.commit.sigs[k]).flag = .commit := by simpa [EntryF.toCSig] using hflag
+  have hp : preOK c eh k := by unfold preOK; rw [hpre]; exact Nat.zero_le _
+  have hp' : preOK c eh' k := by unfold preOK; rw [hvals, hsigs, hpre]; exact Nat.zero_le _
+  obtain ⟨v, s, hv, hs, hval⟩ := tallied_entry_valid P c eh k _ hacc he hf hp
+  obtain ⟨v', s', hv', hs', hval'⟩ := tallied_entry_valid P c eh' k _ hacc' (by rw [hsigs]; exact he) hf hp'
+  rw [hvals, hv] at hv'
+  have hvv := Option.some.inj hv'
+  rw [hs] at hs'
+  have hss := Option.some.inj hs'
+  subst hvv; subst hss
+  have hm := hb _ _ _ _ hval hval'
+  simp only [voteMsg, VoteMsg.mk.injEq] at hm
+  obtain ⟨h1, h2, h3, h4, _⟩ := hm
+  rcases hdiff with h | h | h | h
+  · exact h h3.symm
+  · exact h h4.symm
+  · exact h h1.symm
+  · exact h h2.symm
+
+/-! ### the validator address of a commit entry is bound by nothing -/
+
+/-- everything of a commit entry except the validator address -/
+def entryKey {S : Type} (e : EntryF S) : Flag × Int × Option S := (e.flag, e.ts, e.sig)
+
+/-- replace the commit entries -/
+def withSigs {S : Type} (eh : ExtHeader S) (sigs' : List (EntryF S)) : ExtHeader S :=
+  { eh with commit := { eh.commit with sigs := sigs' } }
+
+theorem map_factor {α β γ : Type} (key : α → β) (g : β → γ) (l l' : List α)
+    (h : l'.map key = l.map key) : l'.map (fun a => g (key a)) = l.map (fun a => g (key a)) := by
+  have := congrArg (List.map g) h
+  simpa [List.map_map, Function.comp_def] using this
+
+/-- **FINDING (address)**: `validate` never reads the validator address of a commit entry: the
+    verdict (including the error kind) is the same for any two headers that differ only in the
+    addresses written in their commit entries -/
+theorem validate_ignores_entry_address {S : Type} (P : Prims S) (c : Consts) (eh : ExtHeader S)
+    (sigs' : List (EntryF S)) (h : sigs'.map entryKey = eh.commit.sigs.map entryKey) :
+    validate P c (withSigs eh sigs') = validate P c eh := by
+  have hlen : sigs'.length = eh.commit.sigs.length := by
+    have := congrArg List.length h; simpa using this
+  -- (1) commit validate_basic
+  have h1 : commitValidateBasic c (withSigs eh sigs').commit = commitValidateBasic c eh.commit := by
+    have hall := map_factor entryKey
+      (fun (k : Flag × Int × Option S) => commitSigValidateBasic { flag := k.1, addr := [], hasSig := k.2.2.isSome })
+      eh.commit.sigs sigs' h
+    have hall' : sigs'.all (fun e => commitSigValidateBasic e.toCSig) =
+        eh.commit.sigs.all (fun e => commitSigValidateBasic e.toCSig) := by
+      have e1 : ∀ l : List (EntryF S), l.all (fun e => commitSigValidateBasic e.toCSig) =
+          (l.map (fun a => commitSigValidateBasic { flag := (entryKey a).1, addr := [], hasSig := (entryKey a).2.2.isSome })).all id := by
+        intro l; simp [List.all_map, entryKey, EntryF.toCSig, commitSigValidateBasic, Function.comp_def]
+      rw [e1, e1, hall]
+    have hemp : sigs'.isEmpty = eh.commit.sigs.isEmpty := by
+      cases hs : sigs' <;> cases hs2 : eh.commit.sigs <;> simp_all
+    simp only [commitValidateBasic, withSigs, hall', hemp]
+  -- (2) the entries as the light loop sees them
+  have h2 : (sigs'.map EntryF.toCSig).map (fun a => (a.flag, a.hasSig)) =
+      (eh.commit.sigs.map EntryF.toCSig).map (fun a => (a.flag, a.hasSig)) := by
+    have := map_factor entryKey (fun (k : Flag × Int × Option S) => (k.1, k.2.2.isSome)) eh.commit.sigs sigs' h
+    simpa [List.map_map, Function.comp_def, EntryF.toCSig, entryKey] using this
+  -- (3) the oracle
+  have h3 : sigOracle P (withSigs eh sigs') = sigOracle P eh := by
+    funext i j
+    have hj : (sigs'.map entryKey)[j]? = (eh.commit.sigs.map entryKey)[j]? := by rw [h]
+    simp only [List.getElem?_map] at hj
+    simp only [sigOracle, withSigs]
+    cases hs' : sigs'[j]? with
+    | none =>
+      rw [hs'] at hj
+      cases hs : eh.commit.sigs[j]? with
+      | none => rfl
+      | some e => rw [hs] at hj; simp at hj
+    | some e' =>
+      rw [hs'] at hj
+      cases hs : eh.commit.sigs[j]? with
+      | none => rw [hs] at hj; simp at hj
+      | some e =>
+        rw [hs] at hj
+        simp only [Option.map_some, Option.some.injEq, entryKey, Prod.mk.injEq] at hj
+        obtain ⟨_, hts, hsig⟩ := hj
+        cases hv : eh.valset.vals[i]? with
+        | none => rfl
+        | some v => simp only [voteMsg, hts, hsig]
+  have h4 : lightOf P c (withSigs eh sigs') = lightOf P c eh := by
+    have hl : ∀ needed, lightLoop (sigOracle P eh) needed 0 0 eh.valset.toValSet.vals (sigs'.map EntryF.toCSig) =
+        lightLoop (sigOracle P eh) needed 0 0 eh.valset.toValSet.vals (eh.commit.sigs.map EntryF.toCSig) :=
+      fun needed => lightLoop_congr _ _ _ 0 0 _ _ h2
+    have hlen2 : (sigs'.map EntryF.toCSig).length = (eh.commit.sigs.map EntryF.toCSig).length := by
+      simp [hlen]
+    unfold lightOf verifyCommitLight
+    rw [h3]
+    simp only [withSigs, hlen2, hl]
+  unfold validate
+  rw [h1]
+  have h4' : verifyCommitLight (sigOracle P (withSigs eh sigs')) c.lightNum c.lightDen
+      (withSigs eh sigs').valset.toValSet (withSigs eh sigs').header.height (withSigs eh sigs').commit.height
+      ((withSigs eh sigs').commit.sigs.map EntryF.toCSig) =
+    verifyCommitLight (sigOracle P eh) c.lightNum c.lightDen eh.valset.toValSet eh.header.height
+      eh.commit.height (eh.commit.sigs.map EntryF.toCSig) := h4
+  rw [h4']
+  rfl
+
+/-! ### acceptance of honest headers; what acceptance binds -/
+
+theorem maxExt_eq (app : Nat) :
+    sourceConsts.maxExtWidth? app = (squareUpper app).map (2 * ·) := by
+  match app with
+  | 0 => decide
+  | 1 => decide
+  | 2 => decide
+  | 3 => decide
+  | 4 => decide
+  | 5 => decide
+  | 6 => decide
+  | 7 => decide
+  | n + 8 =>
+    have h : squareUpper (n + 8) = none := by
+      unfold squareUpper
+      rw [if_neg (by omega), if_neg (by omega)]
+    rw [h]
+    simp [Consts.maxExtWidth?, sourceConsts, squareUpperOfSource, FROM_U64_TABLE, UPPER_BOUND_DISPATCH,
+      SQUARE_SIZE_UPPER_BOUND_TABLE, List.lookup]
+
+theorem c03Input_eq {S : Type} (P : Prims S) (eh : ExtHeader S) :
+    c03Input (toView P eh) =
+      specInput eh.valset.toValSet eh.header.height eh.commit.height (eh.commit.sigs.map EntryF.toCSig) := rfl
+
+theorem lightOf_eq {S : Type} (P : Prims S) (eh : ExtHeader S) :
+    lightOf P sourceConsts eh =
+      Lumina.Props.C03.light (sigOracle P eh) eh.valset.toValSet eh.header.height eh.commit.height
+        (eh.commit.sigs.map EntryF.toCSig) := rfl
+
+set_option linter.unusedSimpArgs false in
+/-- the `validate_basic` level, spec ⇔ model -/
+theorem wellFormed_iff {S : Type} (P : Prims S) (eh : ExtHeader S)
+    (hch : eh.commit.height = eh.header.height) :
+    wellFormed (toView P eh) = true ↔
+      (headerValidateBasic sourceConsts eh.header = none ∧
+       commitValidateBasic sourceConsts eh.commit = none ∧
+       valSetValidateBasicE eh.valset = none) := by
+  have hc : sourceConsts.blockProtocol = 11 ∧ sourceConsts.maxChainIdLen = 50 ∧
+      sourceConsts.genesisHeight = 1 := by decide
+  obtain ⟨c1, c2, c3⟩ := hc
+  unfold wellFormed headerValidateBasic commitValidateBasic valSetValidateBasicE
+  rw [c1, c2, c3, hch]
+  simp only [toView, SetK.toValSet, List.map_map, List.isEmpty_map]
+  by_cases h1 : eh.header.versionBlock = 11
+  case neg => simp [h1]
+  by_cases h2 : eh.header.chainId.length > 50
+  case pos =>
+    have : ¬ eh.header.chainId.length ≤ 50 := by omega
+    simp [h1, h2, this]
+  have h2' : eh.header.chainId.length ≤ 50 := by omega
+  by_cases h3 : eh.header.height = 0
+  case pos => simp [h1, h2, h2', h3]
+  have h3' : 1 ≤ eh.header.height := by omega
+  by_cases h4 : eh.header.height = 1
+  · cases h5 : eh.header.lastBlockId with
+    | some b => simp [h1, h2, h2', h3, h4, h5]
+    | none =>
+      cases h6 : eh.commit.blockId.isZero <;> cases h7 : eh.commit.sigs.isEmpty <;>
+        cases h8 : eh.commit.sigs.all (fun e => commitSigValidateBasic e.toCSig) <;>
+        cases h9 : eh.valset.vals.isEmpty <;> cases h10 : eh.valset.hasProposer <;>
+        simp [h1, h2, h2', h3, h4, h5, h6, h7, h8, h9, h10]
+  · cases h5 : eh.header.lastBlockId with
+    | none => simp [h1, h2, h2', h3, h3', h4, h5]
+    | some b =>
+      cases h6 : eh.commit.blockId.isZero <;> cases h7 : eh.commit.sigs.isEmpty <;>
+        cases h8 : eh.commit.sigs.all (fun e => commitSigValidateBasic e.toCSig) <;>
+        cases h9 : eh.valset.vals.isEmpty <;> cases h10 : eh.valset.hasProposer <;>
+        simp [h1, h2, h2', h3, h3', h4, h5, h6, h7, h8, h9, h10]
+
+
+theorem bound_iff {S : Type} (P : Prims S) (eh : ExtHeader S) :
+    bound (toView P eh) = true ↔
+      (P.hValset eh.valset.hashed = eh.header.validatorsHash ∧
+       P.hDah (eh.dah.rows ++ eh.dah.cols) = eh.header.dataHash.getD none ∧
+       eh.commit.height = eh.header.height ∧
+       eh.commit.blockId.hash = P.hHeader eh.header.canon) := by
+  simp [bound, toView, and_assoc]
+
+theorem widthOK_iff {S : Type} (P : Prims S) (eh : ExtHeader S) :
+    widthOK (toView P eh) = true ↔
+      ∃ maxW, sourceConsts.maxExtWidth? eh.header.versionApp = some maxW ∧
+        dahValidateBasic sourceConsts.minExtWidth maxW eh.dah = none := by
+  have hmin : sourceConsts.minExtWidth = 2 := by decide
+  rw [maxExt_eq, hmin]
+  unfold widthOK dahValidateBasic
+  simp only [toView]
+  cases hsq : squareUpper eh.header.versionApp with
+  | none => simp
+  | some w =>
+    simp only [Option.map_some, Option.some.injEq, exists_eq_left']
+    by_cases h1 : eh.dah.cols.length = eh.dah.rows.length
+    case neg =>
+      have : ¬ eh.dah.rows.length = eh.dah.cols.length := fun h => h1 h.symm
+      simp [h1, this]
+    by_cases h2 : eh.dah.rows.length < 2
+    case pos =>
+      have : ¬ 2 ≤ eh.dah.rows.length := by omega
+      simp [h1, h2, this]
+    by_cases h3 : eh.dah.rows.length > 2 * w
+    case pos =>
+      have : ¬ eh.dah.rows.length ≤ 2 * w := by omega
+      simp [h1, h2, h3, this]
+    have h2' : 2 ≤ eh.dah.rows.length := by omega
+    have h3' : eh.dah.rows.length ≤ 2 * w := by omega
+    simp [h1, h2, h3, h2', h3']
+
+/-- **A header produced and signed by a validator set holding the voting power is accepted by
+    header validation** — for every validator-set size, powers, app version and square width. -/
+theorem honest_accepts {S : Type} (P : Prims S) (eh : ExtHeader S) :
+    specHonestAccepted (toView P eh) (sigOracle P eh)
+      (decide (validate P sourceConsts eh = .ok)) = true := by
+  unfold specHonestAccepted
+  by_cases hh : honest (toView P eh) (sigOracle P eh) = true
+  case neg => simp [hh]
+  have hh0 := hh
+  unfold honest at hh
+  simp only [Bool.and_eq_true, decide_eq_true_eq, beq_iff_eq] at hh
+  obtain ⟨⟨⟨⟨⟨⟨hwf, hb⟩, hwl⟩, hpow⟩, hw⟩, htot⟩, hmax⟩ := hh
+  have hb' := (bound_iff P eh).mp hb
+  have hwf' := (wellFormed_iff P eh hb'.2.2.1).mp hwf
+  have hw' := (widthOK_iff P eh).mp hw
+  have hvs : eh.valset.toValSet.wf = true := by
+    simp only [ValSet.wf, Bool.and_eq_true, beq_iff_eq, decide_eq_true_eq]
+    refine ⟨?_, ?_⟩
+    · simpa [toView, sumPowers, SetK.toValSet] using htot
+    · simpa [toView, MAX_TOTAL_VOTING_POWER, SetK.toValSet] using hmax
+  have hex := Lumina.Props.C03.light_exact (sigOracle P eh) eh.valset.toValSet eh.header.height
+    eh.commit.height (eh.commit.sigs.map EntryF.toCSig) hvs
+  unfold Lumina.Spec.C03.specLightExact at hex
+  rw [← c03Input_eq P eh, hwl] at hex
+  simp only [Bool.not_true, Bool.false_or, beq_iff_eq] at hex
+  have htot' : Lumina.Spec.C03.total (c03Input (toView P eh)) = (toView P eh).powers.sum := rfl
+  rw [htot'] at hex
+  have hlight : lightOf P sourceConsts eh = .ok := by
+    rw [lightOf_eq]
+    have : decide (3 * Lumina.Spec.C03.signingPower (c03Input (toView P eh)) > 2 * (toView P eh).powers.sum) = true := by
+      simpa using hpow
+    rw [this] at hex
+    simpa using hex
+  have hacc : validate P sourceConsts eh = .ok :=
+    (validate_ok_iff P sourceConsts eh).mpr
+      ⟨hwf'.1, hwf'.2.1, hwf'.2.2, hb'.1, hb'.2.1, hb'.2.2.1, hb'.2.2.2, hlight, hw'⟩
+  simp [hacc]
+
+/-- **Validation binds**: an accepted header is well formed, names exactly this validator set and
+    this DAH, its commit is for exactly this header, and validators with valid signatures for its
+    block carry more than two thirds of the set's power. -/
+theorem accepted_binds {S : Type} (P : Prims S) (eh : ExtHeader S)
+    (hT : eh.valset.total = sumPowers eh.valset.toValSet.vals) :
+    specAcceptedBinds (toView P eh) (sigOracle P eh)
+      (decide (validate P sourceConsts eh = .ok)) = true := by
+  unfold specAcceptedBinds
+  by_cases hacc : validate P sourceConsts eh = .ok
+  case neg => simp [hacc]
+  obtain ⟨h1, h2, h3, h4, h5, h6, h7, h8, h9⟩ := (validate_ok_iff P sourceConsts eh).mp hacc
+  have hb : bound (toView P eh) = true := (bound_iff P eh).mpr ⟨h4, h5, h6, h7⟩
+  have hwf : wellFormed (toView P eh) = true := (wellFormed_iff P eh h6).mpr ⟨h1, h2, h3⟩
+  have hw : widthOK (toView P eh) = true := (widthOK_iff P eh).mpr h9
+  have hs := Lumina.Props.C03.light_sound (sigOracle P eh) eh.valset.toValSet eh.header.height
+    eh.commit.height (eh.commit.sigs.map EntryF.toCSig) hT
+  rw [← lightOf_eq, h8, ← c03Input_eq P eh] at hs
+  simp only [decide_true] at hs
+  simp [hacc, hb, hwf, hw, hs]
+
+/-- the spec's "entry k is consumed by the 2/3 tally" is the model's `preOK` -/
+theorem tallied_preOK {S : Type} (P : Prims S) (eh : ExtHeader S) (k : Nat)
+    (ht : tallied (toView P eh) k = true) : preOK sourceConsts eh k := by
+  unfold tallied at ht
+  simp only [Bool.and_eq_true, decide_eq_true_eq] at ht
+  obtain ⟨⟨_, hk⟩, hp⟩ := ht
+  have hk' : k ≤ eh.valset.toValSet.vals.length := by
+    have : k < eh.valset.toValSet.vals.length := by simpa [toView] using hk
+    omega
+  unfold preOK
+  rw [commitPow_take_eq _ _ k hk']
+  have hc : sourceConsts.lightNum = 2 ∧ sourceConsts.lightDen = 3 := by decide
+  rw [hc.1, hc.2, Nat.le_div_iff_mul_le (by decide)]
+  have : powerBefore (toView P eh) k = Lumina.Spec.C03.sumBelow k (fun i =>
+      if (((eh.commit.sigs.map EntryF.toCSig).map toEntry).getD i Lumina.Spec.C03.noVote).isCommit = true
+      then (eh.valset.toValSet.vals.map (·.power)).getD i 0 else 0) := rfl
+  rw [this] at hp
+  have hst : (toView P eh).storedTotal = eh.valset.total := rfl
+  rw [hst] at hp
+  omega
+
+/-- **any commit signature of an entry the 2/3 tally consumes** (spec-level form of
+    `mutation_rejects_signature_partial`, in the terms the driver classifies with) -/
+theorem mutation_rejects_signature_tallied {S : Type} (P : Prims S) (eh : ExtHeader S)
+    (k : Nat) (e e' : EntryF S) (hu : SigUnique P)
+    (hacc : validate P sourceConsts eh = .ok) (he : eh.commit.sigs[k]? = some e)
+    (ht : tallied (toView P eh) k = true)
+    (hsame : e'.flag = e.flag ∧ e'.ts = e.ts) (hdiff : e'.sig ≠ e.sig) :
+    validate P sourceConsts (setEntry eh k e') ≠ .ok := by
+  have hflag : e.flag = .commit := by
+    unfold tallied at ht
+    simp only [Bool.and_eq_true, decide_eq_true_eq] at ht
+    rcases List.getElem?_eq_some_iff.mp he with ⟨hk, hget⟩
+    have h := ht.1.1
+    simp [Lumina.Spec.C03.entry, c03Input, toView, List.getD_eq_getElem?_getD, hk, hget, toEntry, EntryF.toCSig] at h
+    exact of_decide_eq_true h
+  exact mutation_rejects_signature_partial P sourceConsts eh k e e' hu hacc he hflag
+    (tallied_preOK P eh k ht) hsame hdiff
+
+/-- **any commit timestamp of an entry the 2/3 tally consumes** -/
+theorem mutation_rejects_timestamp_tallied {S : Type} (P : Prims S) (eh : ExtHeader S)
+    (k : Nat) (e e' : EntryF S) (hb : SigBindsMsg P)
+    (hacc : validate P sourceConsts eh = .ok) (he : eh.commit.sigs[k]? = some e)
+    (ht : tallied (toView P eh) k = true)
+    (hsame : e'.flag = e.flag ∧ e'.sig = e.sig) (hdiff : e'.ts ≠ e.ts) :
+    validate P sourceConsts (setEntry eh k e') ≠ .ok := by
+  have hflag : e.flag = .commit := by
+    unfold tallied at ht
+    simp only [Bool.and_eq_true, decide_eq_true_eq] at ht
+    rcases List.getElem?_eq_some_iff.mp he with ⟨hk, hget⟩
+    have h := ht.1.1
+    simp [Lumina.Spec.C03.entry, c03Input, toView, List.getD_eq_getElem?_getD, hk, hget, toEntry, EntryF.toCSig] at h
+    exact of_decide_eq_true h
+  exact mutation_rejects_timestamp_partial P sourceConsts eh k e e' hb hacc he hflag
+    (tallied_preOK P eh k ht) hsame hdiff
+
+/-! ### the property as worded is false: full statements and counter-witnesses -/
+
+/-- FULL STATEMENT (signature): changing the signature of ANY commit entry makes validation fail -/
+def FullStatementSig : Prop :=
+  ∀ (S : Type) (P : Prims S) (eh : ExtHeader S) (k : Nat) (e e' : EntryF S),
+    SigUnique P → SigBindsMsg P → validate P sourceConsts eh = .ok →
+    eh.commit.sigs[k]? = some e → e'.flag = e.flag ∧ e'.ts = e.ts ∧ e'.addr = e.addr → e'.sig ≠ e.sig →
+    validate P sourceConsts (setEntry eh k e') ≠ .ok
+
+/-- FULL STATEMENT (timestamp) -/
+def FullStatementTs : Prop :=
+  ∀ (S : Type) (P : Prims S) (eh : ExtHeader S) (k : Nat) (e e' : EntryF S),
+    SigUnique P → SigBindsMsg P → validate P sourceConsts eh = .ok →
+    eh.commit.sigs[k]? = some e → e'.flag = e.flag ∧ e'.sig = e.sig ∧ e'.addr = e.addr → e'.ts ≠ e.ts →
+    validate P sourceConsts (setEntry eh k e') ≠ .ok
+
+/-- FULL STATEMENT (validator address) -/
+def FullStatementAddr : Prop :=
+  ∀ (S : Type) (P : Prims S) (eh : ExtHeader S) (k : Nat) (e e' : EntryF S),
+    SigUnique P → SigBindsMsg P → validate P sourceConsts eh = .ok →
+    eh.commit.sigs[k]? = some e → e'.flag = e.flag ∧ e'.sig = e.sig ∧ e'.ts = e.ts → e'.addr ≠ e.addr →
+    validate P sourceConsts (setEntry eh k e') ≠ .ok
+
+/-- witness: a signature IS the pair (signed content, key); the hashes are constant (the witness
+    needs no collision-freeness: the statements above do not assume any) -/
+abbrev WS := VoteMsg × List UInt8
+
+def wP : Prims WS :=
+  { hHeader := fun _ => none, hValset := fun _ => none, hDah := fun _ => none,
+    sigValid := fun pk m s => decide (s = (m, pk)) }
+
+theorem wP_unique : SigUnique wP := by
+  intro pk m s s' h1 h2
+  simp only [wP, decide_eq_true_eq] at h1 h2
+  rw [h1, h2]
+
+theorem wP_binds : SigBindsMsg wP := by
+  intro pk m m' s h1 h2
+  simp only [wP, decide_eq_true_eq] at h1 h2
+  rw [h1] at h2
+  exact (Prod.mk.inj h2).1
+
+def wBlockId : BlockId := { hash := none, pst := 1, psh := none }
+def wMsg : VoteMsg := { chainId := [], height := 2, round := 0, blockId := wBlockId, ts := 0 }
+def wEntry (i : UInt8) : EntryF WS := { flag := .commit, addr := [i], ts := 0, sig := some (wMsg, [i]) }
+
+/-- four validators of equal power, all four signed: the tally passes 2/3 after the third -/
+def wEH : ExtHeader WS :=
+  { header :=
+      { versionBlock := 11, versionApp := 1, chainId := [], height := 2, time := 0,
+        lastBlockId := some BlockId.zero, lastCommitHash := none, dataHash := none,
+        validatorsHash := none, nextValidatorsHash := none, consensusHash := none, appHash := [],
+        lastResultsHash := none, evidenceHash := none, proposerAddress := [] }
+    commit := { height := 2, round := 0, blockId := wBlockId, sigs := [wEntry 0, wEntry 1, wEntry 2, wEntry 3] }
+    valset := { vals := [⟨[0], [0], 1⟩, ⟨[1], [1], 1⟩, ⟨[2], [2], 1⟩, ⟨[3], [3], 1⟩], total := 4, hasProposer := true }
+    dah := { rows := [[], []], cols := [[], []] } }
+
+theorem wEH_accepted : validate wP sourceConsts wEH = .ok := by decide
+
+/-- **FINDING (early exit)**: the 4th signature replaced by garbage — still accepted -/
+theorem mutation_sig_counterexample : ¬ FullStatementSig := by
+  intro h
+  exact h WS wP wEH 3 (wEntry 3) { wEntry 3 with sig := some (wMsg, [99]) } wP_unique wP_binds
+    wEH_accepted (by decide) (by decide) (by decide) (by decide)
+
+/-- the 4th timestamp changed — still accepted -/
+theorem mutation_ts_counterexample : ¬ FullStatementTs := by
+  intro h
+  exact h WS wP wEH 3 (wEntry 3) { wEntry 3 with ts := 7 } wP_unique wP_binds
+    wEH_accepted (by decide) (by decide) (by decide) (by decide)
+
+/-- **FINDING (address)**: the validator address of the FIRST entry (consumed by the tally)
+    changed — still accepted -/
+theorem mutation_addr_counterexample : ¬ FullStatementAddr := by
+  intro h
+  exact h WS wP wEH 0 (wEntry 0) { wEntry 0 with addr := [42] } wP_unique wP_binds
+    wEH_accepted (by decide) (by decide) (by decide) (by decide)
+
+-- non-vacuity of the `_partial` theorems: entry 0 of the witness is consumed by the tally, entry 3 is not
+example : tallied (toView wP wEH) 0 = true := by decide
+example : tallied (toView wP wEH) 2 = true := by decide
+example : tallied (toView wP wEH) 3 = false := by decide
+example : honest (toView wP wEH) (sigOracle wP wEH) = true := by decide
+example : validate wP sourceConsts (setEntry wEH 1 { wEntry 1 with sig := some (wMsg, [99]) }) =
+    .err (.commit .sigInvalid) := by decide
 
 end Lumina.Props.C01
